@@ -225,4 +225,182 @@ theorem serialize_molecule_eq (env : DepEnv) (fuel : Nat) (m m₁ m' : Graph)
   · have : (nodeAttrsSpec (sortGraph m₁ "atomic_number")).isEmpty = false := by simpa using hn
     simp [hn, this, truthy, Truthy.truthy, pyStr, PyStr.pyStr]
 
+/-! ## 3. layout of the three sections -/
+
+theorem mem_range_iff (n x : Int) : x ∈ range n ↔ 0 ≤ x ∧ x < n := by
+  simp only [range, List.mem_map, List.mem_range]
+  constructor
+  · rintro ⟨a, ha, rfl⟩
+    simp only [Int.ofNat_eq_natCast]
+    omega
+  · rintro ⟨h1, h2⟩
+    exact ⟨x.toNat, by omega, by simp only [Int.ofNat_eq_natCast]; omega⟩
+
+/-- no-self-loops is preserved by relabelling -/
+theorem loopless_relabel {π : Int → Int} {g h : Graph} (r : Graph.IsRelabel π g h) (hg : g.WF) (hh : h.WF)
+    (hl : g.Loopless) : h.Loopless := by
+  intro u hu
+  have hun : u ∈ h.nodeList := hh.nbr_mem u u hu
+  obtain ⟨a, ha, rfl⟩ := List.mem_map.1 (r.nodes.mem_iff.1 hun)
+  obtain ⟨v, hv, e⟩ := List.mem_map.1 ((r.nbrs a ha).mem_iff.1 hu)
+  have := r.inj v (hg.nbr_mem a v hv) a ha e
+  subst this
+  exact hl v hv
+
+/-! ### 3a. bond tuples -/
+
+/-- the printed bonds: each as (smaller label, larger label), in ascending order -/
+def bondList (m : Graph) : List (Int × Int) := sorted (m.edges.map normEdge)
+
+theorem edgeListSpec_eq (m : Graph) : edgeListSpec m = ((bondList m).map renderEdge).flatten := rfl
+
+theorem normEdge_eq_iff (p q : Int × Int) : normEdge p = normEdge q ↔ p = q ∨ p = (q.2, q.1) := by
+  obtain ⟨a, b⟩ := p
+  obtain ⟨c, d⟩ := q
+  simp only [normEdge, Prod.mk.injEq]
+  omega
+
+theorem nodup_normEdges {g : Graph} (hg : g.WF) : (g.edges.map normEdge).Nodup := by
+  refine List.Nodup.map_on ?_ (Graph.nodup_edges hg)
+  intro p hp q hq e
+  rcases (normEdge_eq_iff p q).1 e with h | h
+  · exact h
+  · obtain ⟨c, d⟩ := q
+    subst h
+    by_cases hcd : c = d
+    · subst hcd; rfl
+    · exact absurd hp (Graph.edges_antisymm hg hq hcd)
+
+theorem edges_no_loop {g : Graph} (hg : g.WF) (hl : g.Loopless) : ∀ e ∈ g.edges, e.1 ≠ e.2 := by
+  rintro ⟨u, v⟩ he huv
+  simp only at huv
+  subst huv
+  exact hl u (Graph.mem_edges_imp hg he)
+
+theorem mem_bondList {g : Graph} (hg : g.WF) (e : Int × Int) :
+    e ∈ bondList g ↔ e.1 ≤ e.2 ∧ e.2 ∈ g.nbrs e.1 := by
+  unfold bondList
+  rw [mem_sorted, List.mem_map]
+  constructor
+  · rintro ⟨⟨u, v⟩, hp, rfl⟩
+    have h1 := Graph.mem_edges_imp hg hp
+    have h2 := hg.mem_nbrs_symm h1
+    simp only [normEdge]
+    refine ⟨by omega, ?_⟩
+    rcases le_total u v with h | h
+    · rw [min_eq_left h, max_eq_right h]; exact h1
+    · rw [min_eq_right h, max_eq_left h]; exact h2
+  · rintro ⟨hle, hn⟩
+    obtain ⟨u, v⟩ := e
+    simp only at hle hn
+    rcases Graph.mem_edges_of_nbrs hg hn with h | h
+    · exact ⟨(u, v), h, by simp [normEdge, hle]⟩
+    · exact ⟨(v, u), h, by simp [normEdge, hle]⟩
+
+/-- Layout of the tuple section for a well-formed, loop-free graph with labels `0..n-1`:
+every printed tuple `(a-b)` (`a = e.1+1`, `b = e.2+1`) has `1 ≤ a < b ≤ n`; the tuples are strictly
+ascending (lexicographically); the tuples are exactly the bonds, each bond exactly once. -/
+theorem tuples_layout {ms : Graph} {n : Int} (hw : ms.WF) (hl : ms.Loopless) (hn : ms.nodeList.Perm (range n)) :
+    (∀ e ∈ bondList ms, 1 ≤ e.1 + 1 ∧ e.1 + 1 < e.2 + 1 ∧ e.2 + 1 ≤ n) ∧
+    (bondList ms).Pairwise (fun a b => a.1 < b.1 ∨ (a.1 = b.1 ∧ a.2 < b.2)) ∧
+    (∀ e ∈ bondList ms, e.2 ∈ ms.nbrs e.1) ∧
+    (∀ u v, v ∈ ms.nbrs u → (bondList ms).count (min u v, max u v) = 1) := by
+  have hnd := nodup_normEdges hw
+  refine ⟨?_, ?_, ?_, ?_⟩
+  · intro e he
+    have hlt := edge_list_lt ms (edges_no_loop hw hl) e he
+    have hm := ((mem_bondList hw e).1 he).2
+    have h2 : e.2 ∈ ms.nodeList := hw.nbr_mem _ _ hm
+    have h1 : e.1 ∈ ms.nodeList := hw.nbr_mem _ _ (hw.mem_nbrs_symm hm)
+    have h1' := (mem_range_iff n e.1).1 (hn.mem_iff.1 h1)
+    have h2' := (mem_range_iff n e.2).1 (hn.mem_iff.1 h2)
+    omega
+  · refine (edge_list_strict ms hnd).imp ?_
+    intro a b hab
+    have := (lt_prod_iff a b).1 hab
+    simpa [POrd.lt] using this
+  · intro e he
+    exact ((mem_bondList hw e).1 he).2
+  · intro u v huv
+    apply List.count_eq_one_of_mem (sorted_nodup hnd)
+    rw [← bondList, mem_bondList hw]
+    refine ⟨by simp, ?_⟩
+    rcases le_total u v with h | h
+    · rw [min_eq_left h, max_eq_right h]; exact huv
+    · rw [min_eq_right h, max_eq_left h]; exact hw.mem_nbrs_symm huv
+
+/-! ### 3b. attribute blocks -/
+
+/-- an atom is "labelled" when it has a mass or a rad entry -/
+def hasProps (a : Attrs) : Bool := (a.get? "mass").isSome || (a.get? "rad").isSome
+
+/-- one non-empty block `(index:prop[,prop])` -/
+def blockStr (p : Int × Attrs) : Str :=
+  py!"(" ++ pyStrInt (p.1 + 1) ++ py!":" ++ join py!"," (renderProps p.2) ++ py!")"
+
+/-- the labelled atoms with their attribute dicts, by ascending label -/
+def labelled (m : Graph) : List (Int × Attrs) := (sortedKey Prod.fst m.nodesData).filter (fun p => hasProps p.2)
+
+/-- `mass` is printed before `rad` -/
+theorem renderProps_eq (a : Attrs) : renderProps a =
+    ((a.get? "mass").map (fun v => py!"mass=" ++ pyStr v)).toList ++
+    ((a.get? "rad").map (fun v => py!"rad=" ++ pyStr v)).toList := by
+  simp only [renderProps, List.filterMap]
+  cases a.get? "mass" <;> cases a.get? "rad" <;> rfl
+
+theorem renderProps_eq_nil_iff (a : Attrs) : renderProps a = [] ↔ hasProps a = false := by
+  rw [renderProps_eq, hasProps]
+  cases a.get? "mass" <;> cases a.get? "rad" <;> simp
+
+theorem renderBlock_eq (p : Int × Attrs) : renderBlock p = if hasProps p.2 then blockStr p else [] := by
+  unfold renderBlock blockStr
+  by_cases h : hasProps p.2 = true
+  · have : renderProps p.2 ≠ [] := by
+      rw [Ne, renderProps_eq_nil_iff]; simp [h]
+    simp [h, this]
+  · have h' : hasProps p.2 = false := by simpa using h
+    simp [h', (renderProps_eq_nil_iff p.2).2 h']
+
+theorem flatten_renderBlock (l : List (Int × Attrs)) :
+    (l.map renderBlock).flatten = ((l.filter (fun p => hasProps p.2)).map blockStr).flatten := by
+  induction l with
+  | nil => rfl
+  | cons p l ih =>
+    by_cases h : hasProps p.2 = true
+    · simp [List.filter_cons, h, renderBlock_eq, ih]
+    · have h' : hasProps p.2 = false := by simpa using h
+      simp [List.filter_cons, h', renderBlock_eq, ih]
+
+theorem nodeAttrsSpec_eq (m : Graph) : nodeAttrsSpec m = ((labelled m).map blockStr).flatten := by
+  unfold nodeAttrsSpec labelled
+  exact flatten_renderBlock _
+
+/-- Layout of the attribute section for a well-formed graph with labels `0..n-1`:
+the blocks belong to exactly the atoms that have a mass or rad entry (with that atom's attribute dict),
+in strictly ascending index order (hence once per atom), indices within `1..n`. Inside a block `mass`
+comes before `rad` (`renderProps_eq`). -/
+theorem blocks_layout {ms : Graph} {n : Int} (hw : ms.WF) (hn : ms.nodeList.Perm (range n)) :
+    (labelled ms).Pairwise (fun p q => p.1 < q.1) ∧
+    (∀ p, p ∈ labelled ms ↔ ms.node.get? p.1 = some p.2 ∧ hasProps p.2 = true) ∧
+    (∀ p ∈ labelled ms, 1 ≤ p.1 + 1 ∧ p.1 + 1 ≤ n) := by
+  have hmem : ∀ p, p ∈ labelled ms ↔ ms.node.get? p.1 = some p.2 ∧ hasProps p.2 = true := by
+    intro p
+    unfold labelled
+    rw [List.mem_filter, mem_sortedKey]
+    constructor
+    · rintro ⟨h1, h2⟩
+      exact ⟨Dict.get?_of_mem_items hw.node_wf h1, h2⟩
+    · rintro ⟨h1, h2⟩
+      exact ⟨Dict.mem_items_of_get? h1, h2⟩
+  refine ⟨?_, hmem, ?_⟩
+  · have hnd : (ms.nodesData.map Prod.fst).Nodup := hw.node_wf
+    have := sortedKey_strict (f := Prod.fst) hnd
+    refine (this.sublist List.filter_sublist).imp ?_
+    intro a b hab
+    simpa [POrd.lt] using hab
+  · intro p hp
+    have h1 := ((hmem p).1 hp).1
+    have := (mem_range_iff n p.1).1 (hn.mem_iff.1 (Graph.mem_nodeList_of_get? h1))
+    omega
+
 end Contracts.Layout
